@@ -1,6 +1,6 @@
 """Source of MANIFEST.json (bin/mkmanifest writes the file and validates it against the schema)."""
 HOOK_COMMITS = ["7415e61"]
-FIX_COMMITS = ["154bc79", "5b349fa", "e22eec4", "243935d"]
+FIX_COMMITS = ["154bc79", "5b349fa", "e22eec4", "243935d", "ab582fe", "d79ccb0", "fdd348a", "1b4a4cc", "b323deb", "87e785f", "a63e53d", "ed0be68", "4ccedeb"]
 
 SERVER_NOTE = ("Trusted: TLC, the Go toolchain, the harness fakes (fakenet, wrapping handlers). Handler behaviour is the scripted "
                "Chaos handler; value dimensions (flag octets, sequence numbers, bodies, keys) are seeded samples, histories are "
